@@ -5,6 +5,10 @@
 //!           or `(err <kind> <offset>)`  (kind = ParseErrorType variant, `Lexical.<variant>` for lexer errors)
 //!   parsehash <mode> <start> <erase> <hex src>
 //!        -> `(hash <fnv1a64 of the canonical text, 16 hex> <length>)` or `(err ..)`  (for very large inputs)
+//!   <setctx|args|elif|tryend|implvl|glist|sub> <path> <how t|T|r> <hex src> <ignored…>
+//!        -> canonical subtree at `path` (e.g. `body.0.targets.0`) of the Module parse; t = ranges erased,
+//!           T = with ranges, r = only `@a..b` of that node.  The words after the source are arguments
+//!           for the Lean model (drv_c01) and are ignored here.
 //!   expr <erase> <hex src>      -> canonical tree of ast::Expr::parse (the body of Expression mode)
 //!   suite <erase> <hex src>     -> `[stmt …]` of ast::Suite::parse
 //!   debug <mode> <hex src>      -> the raw `{:?}` text (diagnostics only)
@@ -57,7 +61,7 @@ fn fnv(s: &str) -> u64 {
 fn handle(ws: &[&str]) -> String {
     let bad = || "bad-request".to_string();
     match ws {
-        [op @ ("parse" | "parsehash"), m, start, erase, src] => {
+        [op @ ("parse" | "parsehash"), m, start, erase, src, ..] if ws.len() <= 6 => {
             let (Some(mode), Ok(start), Some(src)) = (mode_of(m), start.parse::<u32>(), unhex_str(src)) else {
                 return bad();
             };
@@ -69,6 +73,30 @@ fn handle(ws: &[&str]) -> String {
                         format!("(hash {:016x} {})", fnv(&s), s.len())
                     } else {
                         s
+                    }
+                }
+                Err(e) => err_line(&e),
+            }
+        }
+        // mechanism streams: `<op> <path> <how t|T|r> <hex src> <model args…>` -> canonical subtree at `path`
+        // of the Module-mode parse (t = ranges erased, T = with ranges, r = only the node's `@a..b`)
+        [("setctx" | "args" | "elif" | "tryend" | "implvl" | "glist" | "sub"), path, how, src, ..] => {
+            let Some(src) = unhex_str(src) else { return bad() };
+            match parse_starts_at(&src, Mode::Module, "<pvh>", TextSize::from(0)) {
+                Ok(t) => {
+                    let dbg = format!("{:?}", t);
+                    let Ok(v) = astdump::parse_debug(&dbg) else { return "(dump-error)".into() };
+                    match astdump::navigate(&v, path) {
+                        Some(sub) => {
+                            if *how == "r" {
+                                astdump::range_of(sub).unwrap_or_else(|| "(no-range)".into())
+                            } else {
+                                let mut out = String::new();
+                                astdump::canon(sub, *how == "t", &mut out);
+                                out
+                            }
+                        }
+                        None => "(no-such-path)".into(),
                     }
                 }
                 Err(e) => err_line(&e),
